@@ -922,5 +922,109 @@ theorem fix_installed_isSome {own : List α} {ls : List (Link α F)} {s : DState
     have := evalC_mono_le own ownVal app s.via (hN c d hd) c v hv
     simp [this]
 
+/-! ### links that can never be evaluated are irrelevant -/
+
+theorem maxDepth?_none_of_mem {depth : List (α × Nat)} {fs : List α} {f : α} (hf : f ∈ fs)
+    (h : get depth f = none) : maxDepth? depth fs = none := by
+  induction fs with
+  | nil => cases hf
+  | cons a r ih =>
+    unfold maxDepth?
+    rcases List.mem_cons.mp hf with rfl | hf'
+    · rw [h]
+    · rw [ih hf']
+      cases get depth a <;> rfl
+
+theorem findStep_filter (depth : List (α × Nat)) (keep : Link α F → Bool) (ls : List (Link α F))
+    (h : ∀ l ∈ ls, keep l = false → cost? depth l = none) :
+    findStep depth (ls.filter keep) = findStep depth ls := by
+  induction ls with
+  | nil => rfl
+  | cons a r ih =>
+    have ihr := ih (fun l hl => h l (List.mem_cons_of_mem _ hl))
+    cases hk : keep a with
+    | true =>
+      rw [List.filter_cons_of_pos (by simpa using hk)]
+      simp only [findStep, ihr]
+    | false =>
+      rw [List.filter_cons_of_neg (by simp [hk])]
+      have := h a (List.mem_cons_self ..) hk
+      simp only [findStep, this, ihr]
+
+/-- Dropping links one of whose inputs is not reachable does not change a single iteration of the
+loop, hence not its result. -/
+theorem discoverFuel_filter {own : List α} {ls : List (Link α F)} (keep : Link α F → Bool)
+    (hdrop : ∀ l ∈ ls, keep l = false → ∃ f ∈ l.froms, ¬ Reachable own ls f) (n : Nat) :
+    ∀ s : DState α F, Inv own ls s → discoverFuel n (ls.filter keep) s = discoverFuel n ls s := by
+  induction n with
+  | zero => intro s _; rfl
+  | succ n ih =>
+    intro s hI
+    have hfs : findStep s.depth (ls.filter keep) = findStep s.depth ls := by
+      apply findStep_filter
+      intro l hl hk
+      obtain ⟨f, hf, hnr⟩ := hdrop l hl hk
+      have hnone : get s.depth f = none := by
+        cases hd : get s.depth f with
+        | none => rfl
+        | some d => exact absurd (derivLe_reachable (hI.sound f d hd)) hnr
+      simp [cost?, maxDepth?_none_of_mem hf hnone]
+    unfold discoverFuel
+    rw [hfs]
+    cases hf : findStep s.depth ls with
+    | none => rfl
+    | some p =>
+      obtain ⟨l, c⟩ := p
+      exact ih _ (inv_step hI hf)
+
+theorem fuelBound_mono {ls ls' : List (Link α F)} (h : ls'.length ≤ ls.length) :
+    fuelBound ls' ≤ fuelBound ls := by
+  have : ls'.length * (ls'.length + 1) ≤ ls.length * (ls.length + 1) :=
+    Nat.mul_le_mul h (Nat.succ_le_succ h)
+  simp only [fuelBound]
+  omega
+
+theorem discoverLinks_filter (own : List α) (ls : List (Link α F)) (keep : Link α F → Bool)
+    (hdrop : ∀ l ∈ ls, keep l = false → ∃ f ∈ l.froms, ¬ Reachable own ls f) :
+    discoverLinks own (ls.filter keep) = discoverLinks own ls := by
+  have hle : fuelBound (ls.filter keep) ≤ fuelBound ls := fuelBound_mono (List.length_filter_le _ _)
+  have h1 : discoverFuel (fuelBound ls) (ls.filter keep) (initState own) =
+      discoverLinks own (ls.filter keep) := by
+    have : fuelBound ls = fuelBound (ls.filter keep) + (fuelBound ls - fuelBound (ls.filter keep)) := by
+      omega
+    rw [this, discoverFuel_add]
+    exact discoverFuel_stable (discover_stable own (ls.filter keep)) _
+  rw [← h1]
+  exact discoverFuel_filter keep hdrop _ _ (inv_init own ls)
+
+/-- `evalC` reads the dict only through `get`. -/
+theorem evalC_congr_via {V : Type} (own : List α) (ownVal : α → V) (app : F → List V → V)
+    {via via' : List (α × Link α F)} (h : ∀ c, get via c = get via' c) (n : Nat) :
+    ∀ c, evalC own ownVal app via n c = evalC own ownVal app via' n c := by
+  induction n with
+  | zero => intro c; rfl
+  | succ n ih =>
+    intro c
+    simp only [evalC, h c]
+    have : ∀ l : Link α F, l.froms.map (evalC own ownVal app via n) =
+        l.froms.map (evalC own ownVal app via' n) := fun l => by
+      apply List.map_congr_left
+      intro f _
+      exact ih f
+    simp only [this]
+
+theorem get_append {β : Type} (a b : List (α × β)) (c : α) :
+    get (a ++ b) c = match get a c with
+      | some v => some v
+      | none => get b c := by
+  induction a with
+  | nil => simp
+  | cons x r ih =>
+    obtain ⟨k, v⟩ := x
+    simp only [List.cons_append, get_cons]
+    split
+    · rfl
+    · exact ih
+
 end
 end GlueVerif.Lemmas.C03
